@@ -1324,6 +1324,35 @@ func init() {
 			return []Val{{r, tInt, ""}}, true
 		}
 	}
+	// slices.SortFunc / slices.Sort / sort.Strings: the elements are permuted in place. Abstracted: the backing array holds
+	// arbitrary (well-formed) elements afterwards, the slice header and everything else are unchanged; the comparison
+	// function is not run (it is assumed to have no effects).
+	sortModel := func(fr *Frame, st *State, args []Val, in ssa.Instruction, pos token.Pos) ([]Val, bool) {
+		u := fr.u
+		slt, ok := args[0].Ty.Underlying().(*types.Slice)
+		if !ok {
+			return nil, false
+		}
+		et := slt.Elem()
+		es := u.sortOf(et)
+		hn, hs := u.elemHeapName(et), "(Array Int (Array Int "+es+"))"
+		h := u.hget(st, hn, hs)
+		u.markWrite(hn, sx("s_arr", args[0].T))
+		na := u.fresh("sorted", "(Array Int "+es+")")
+		// positions outside the slice keep their contents
+		u.assume(st, fmt.Sprintf("(forall ((i Int)) (! (=> (or (< i (s_off %s)) (>= i (+ (s_off %s) (s_len %s)))) (= (select %s i) (select (select %s (s_arr %s)) i))) :pattern ((select %s i))))",
+			args[0].T, args[0].T, args[0].T, na, h, args[0].T, na))
+		if w := u.wfVal("(select "+na+" i)", et, u.hget(st, "$alloc", sInt)); w != "true" {
+			u.assume(st, fmt.Sprintf("(forall ((i Int)) (! %s :pattern ((select %s i))))", w, na))
+		}
+		u.hset(st, hn, hs, store(h, sx("s_arr", args[0].T), na))
+		u.note("library model: in-place sort (elements abstracted to arbitrary contents of the same slice; comparison function not run)")
+		return nil, true
+	}
+	models["slices.SortFunc"] = sortModel
+	models["slices.SortStableFunc"] = sortModel
+	models["slices.Sort"] = sortModel
+	models["sort.Strings"] = sortModel
 	models["slices.IndexFunc"] = idxFunc("IndexFunc")
 	models["slices.ContainsFunc"] = idxFunc("ContainsFunc")
 	models["strconv.Itoa"] = func(fr *Frame, st *State, args []Val, in ssa.Instruction, pos token.Pos) ([]Val, bool) {
